@@ -1,7 +1,219 @@
 import H5V.Proto
-/- engine `ser` (stub) -/
+import H5V.Model.HtmlSer
+/- engine `ser` — grammar and output format: see harness/src/engines/ser.rs (same on both sides).
+   The driver runs the model with `Cfg.current`
+   (`runCaseWith` lets a scratch script run the model of the proposed fixes). -/
 namespace H5V.Model.HtmlSerDriver
+open H5V.Proto H5V.Model.HtmlSer
 
-def runCase (_fields : List String) : String := "unimplemented"
+def uriHtml := "http://www.w3.org/1999/xhtml".toList
+def uriMathml := "http://www.w3.org/1998/Math/MathML".toList
+def uriSvg := "http://www.w3.org/2000/svg".toList
+def uriXml := "http://www.w3.org/XML/1998/namespace".toList
+def uriXmlns := "http://www.w3.org/2000/xmlns/".toList
+def uriXlink := "http://www.w3.org/1999/xlink".toList
+
+/-- namespaces are atoms in Rust: a spelled-out URI equal to a well-known one *is* that one -/
+def nsOfUri (u : List Char) : Ns :=
+  if u == uriHtml then .html else if u == uriMathml then .mathml else if u == uriSvg then .svg
+  else if u == uriXml then .xml else if u == uriXmlns then .xmlns else if u == uriXlink then .xlink
+  else if u.isEmpty then .empty else .other u
+
+def parseNs? (s : String) : Option Ns :=
+  match s with
+  | "h" => some .html | "m" => some .mathml | "s" => some .svg | "x" => some .xml
+  | "n" => some .xmlns | "l" => some .xlink | "0" => some .empty
+  | _ => if s.startsWith "u" then (parseChars? (s.drop 1).toString).map nsOfUri else none
+
+def parseQual? (ns loc : String) : Option QualName := do
+  let ns ← parseNs? ns
+  let loc ← parseChars? loc
+  pure ⟨ns, loc⟩
+
+def parseAttr? (f : List String) : Option Attr :=
+  match f with
+  | ["A", ns, pfx, loc, value] => do
+    let name ← parseQual? ns loc
+    let pfx ← if pfx == "~" then pure none else (parseChars? pfx).map some
+    let value ← parseChars? value
+    pure ⟨name, pfx, value⟩
+  | _ => none
+
+def parseScope? (s : String) : Option Scope :=
+  match s.splitOn ":" with
+  | ["I"] => some .includeNode
+  | ["C"] => some (.childrenOnly none)
+  | ["N", ns, loc] => (parseQual? ns loc).map (fun q => .childrenOnly (some q))
+  | _ => none
+
+def parseFlag? (s : String) : Option Bool :=
+  match s with
+  | "0" => some false | "1" => some true | _ => none
+
+/-- an open element / document while reading the token list -/
+structure Frame where
+  name : Option QualName      -- none = Document
+  attrs : List Attr           -- reversed
+  kids : List Node            -- reversed
+  sawKid : Bool
+
+structure PState where
+  frames : List Frame
+  root : Option Node
+  bad : Bool
+
+def addNode (st : PState) (n : Node) : PState :=
+  match st.frames with
+  | f :: rest => { st with frames := { f with kids := n :: f.kids, sawKid := true } :: rest }
+  | [] => if st.root.isSome then { st with bad := true } else { st with root := some n }
+
+def closeFrame (f : Frame) : Node :=
+  match f.name with
+  | some q => .element q f.attrs.reverse f.kids.reverse
+  | none => .document f.kids.reverse
+
+def stepTok (st : PState) (tok : String) : PState :=
+  if st.bad then st else
+  -- nothing may follow the completed root
+  if st.frames.isEmpty && st.root.isSome then { st with bad := true } else
+  let f := tok.splitOn ":"
+  match f with
+  | ["E", ns, loc] => match parseQual? ns loc with
+    | some q => { st with frames := ⟨some q, [], [], false⟩ :: st.frames }
+    | none => { st with bad := true }
+  | ["R"] => { st with frames := ⟨none, [], [], false⟩ :: st.frames }
+  | "A" :: _ => match st.frames, parseAttr? f with
+    | fr :: rest, some a =>
+      if fr.sawKid || fr.name.isNone then { st with bad := true }
+      else { st with frames := { fr with attrs := a :: fr.attrs } :: rest }
+    | _, _ => { st with bad := true }
+  | ["/"] => match st.frames with
+    | fr :: rest => addNode { st with frames := rest } (closeFrame fr)
+    | [] => { st with bad := true }
+  | ["T", s] => match parseChars? s with
+    | some s => addNode st (.text s) | none => { st with bad := true }
+  | ["C", s] => match parseChars? s with
+    | some s => addNode st (.comment s) | none => { st with bad := true }
+  | ["D", s] => match parseChars? s with
+    | some s => addNode st (.doctype s) | none => { st with bad := true }
+  | ["P", t, d] => match parseChars? t, parseChars? d with
+    | some t, some d => addNode st (.pi t d) | _, _ => { st with bad := true }
+  | _ => { st with bad := true }
+
+def parseTree? (s : String) : Option Node :=
+  let st := (s.splitOn ";").foldl stepTok ⟨[], none, false⟩
+  if st.bad || !st.frames.isEmpty then none else st.root
+
+def siteName (site : String) : String :=
+  if site == "no parent ElemInfo" then "panic-no-parent"
+  else if site == "no ElemInfo" then "panic-no-eleminfo"
+  else if site == "Can't serialize Document node itself" then "panic-document"
+  else "panic-other(" ++ site ++ ")"
+
+def statusOf : R Bytes → String × Bytes
+  | .ok b => ("ok", b)
+  | .error p => (siteName p.site, p.out)
+
+/-- start tag / end tag as written on a fresh stack -/
+def tagsOf (cfg : Cfg) (o : Opts) (name : QualName) (attrs : List Attr) : Option (Bytes × Bytes) :=
+  match startElem cfg o name attrs (new cfg .includeNode) with
+  | .error _ => none
+  | .ok s1 => match endElem o name s1 with
+    | .error _ => none
+    | .ok s2 => some (s1.out, s2.out.drop s1.out.length)
+
+mutual
+def ioNode (cfg : Cfg) (o : Opts) (path : String) : Node → List String
+  | .element name attrs ch =>
+    let e := Node.element name attrs ch
+    let (ro, outer) := statusOf (serializeOps cfg .includeNode o e)
+    let (ri, inner) := statusOf (serializeOps cfg (.childrenOnly (some name)) o e)
+    let here := match tagsOf cfg o name attrs with
+      | none => [path]
+      | some (st, en) =>
+        if ro != ri || (ro == "ok" && outer != st ++ inner ++ en) then [path] else []
+    here ++ ioForest cfg o path 0 ch
+  | .document ch => ioForest cfg o path 0 ch
+  | _ => []
+def ioForest (cfg : Cfg) (o : Opts) (path : String) (k : Nat) : List Node → List String
+  | [] => []
+  | n :: ns =>
+    let p := if path == "r" then toString k else path ++ "." ++ toString k
+    ioNode cfg o p n ++ ioForest cfg o path (k + 1) ns
+end
+
+def showIo (bad : List String) : String :=
+  if bad.isEmpty then "ok" else ",".intercalate (bad.take 8)
+
+def runTree (cfg : Cfg) (scope scripting cmp tree : String) : String :=
+  match parseScope? scope, parseFlag? scripting, parseFlag? cmp, parseTree? tree with
+  | some scope, some scripting, some cmp, some t =>
+    let o : Opts := ⟨scripting, cmp⟩
+    let (r, out) := statusOf (serializeOps cfg scope o t)
+    -- the recursive formulation must agree with the op loop (also proved: C07.runOps_eq)
+    let (r2, out2) := statusOf (serialize cfg scope o t)
+    if r != r2 || out != out2 then "model-internal-mismatch" else
+    "r=" ++ r ++ ";out=" ++ showBytes out ++ ";io=" ++ showIo (ioNode cfg o "r" t)
+  | _, _, _, _ => "bad-case"
+
+inductive Op where
+  | start (n : QualName) (attrs : List Attr)
+  | endE (n : QualName)
+  | text (s : List Char)
+  | comment (s : List Char)
+  | doctype (s : List Char)
+  | pi (t d : List Char)
+
+/-- ops: `S:` tokens collect the `A:` tokens that follow; result reversed -/
+def stepOp (acc : Option (List Op)) (tok : String) : Option (List Op) := do
+  let ops ← acc
+  let f := tok.splitOn ":"
+  match f with
+  | ["S", ns, loc] => (parseQual? ns loc).map (fun q => .start q [] :: ops)
+  | "A" :: _ => match ops, parseAttr? f with
+    | .start q attrs :: rest, some a => some (.start q (attrs ++ [a]) :: rest)
+    | _, _ => none
+  | ["X", ns, loc] => (parseQual? ns loc).map (fun q => .endE q :: ops)
+  | ["T", s] => (parseChars? s).map (fun s => .text s :: ops)
+  | ["C", s] => (parseChars? s).map (fun s => .comment s :: ops)
+  | ["D", s] => (parseChars? s).map (fun s => .doctype s :: ops)
+  | ["P", t, d] => do
+    let t ← parseChars? t
+    let d ← parseChars? d
+    pure (.pi t d :: ops)
+  | _ => none
+
+def applyOp (cfg : Cfg) (o : Opts) (s : Ser) : Op → R Ser
+  | .start n a => startElem cfg o n a s
+  | .endE n => endElem o n s
+  | .text t => writeText cfg o t s
+  | .comment t => writeComment t s
+  | .doctype t => writeDoctype t s
+  | .pi t d => writePI t d s
+
+def applyOps (cfg : Cfg) (o : Opts) : List Op → Ser → R Ser
+  | [], s => .ok s
+  | op :: ops, s => do
+    let s ← applyOp cfg o s op
+    applyOps cfg o ops s
+
+def runOpsCase (cfg : Cfg) (scope scripting cmp ops : String) : String :=
+  let toks := if ops == "-" then [] else ops.splitOn ";"
+  match parseScope? scope, parseFlag? scripting, parseFlag? cmp, toks.foldl stepOp (some []) with
+  | some scope, some scripting, some cmp, some opsRev =>
+    let o : Opts := ⟨scripting, cmp⟩
+    let (r, out) := statusOf ((applyOps cfg o opsRev.reverse (new cfg scope)).map (·.out))
+    "r=" ++ r ++ ";out=" ++ showBytes out
+  | _, _, _, _ => "bad-case"
+
+def runCaseWith (cfg : Cfg) (fields : List String) : String :=
+  match fields with
+  | ["tree", scope, scripting, cmp, tree] => runTree cfg scope scripting cmp tree
+  | ["ops", scope, scripting, cmp, ops] => runOpsCase cfg scope scripting cmp ops
+  | ["parse", _, _] => "no-model"
+  | _ => "bad-case"
+
+/-- the engine entry point: the model of the code as it is -/
+def runCase (fields : List String) : String := runCaseWith Cfg.current fields
 
 end H5V.Model.HtmlSerDriver
